@@ -122,6 +122,7 @@ impl<'names> GlifParser<'names> {
                     _other => return Err(ErrorKind::UnexpectedElement.into()),
                 },
                 Event::End(ref end) if end.name().as_ref() == b"glyph" => break,
+                Event::Comment(_) => (),
                 _other => return Err(ErrorKind::MissingCloseTag.into()),
             }
             buf.clear();
@@ -161,6 +162,7 @@ impl<'names> GlifParser<'names> {
                     }
                 }
                 Event::End(ref end) if end.name().as_ref() == b"outline" => break,
+                Event::Comment(_) => (),
                 Event::Eof => return Err(ErrorKind::UnexpectedEof.into()),
                 _other => return Err(ErrorKind::UnexpectedElement.into()),
             }
@@ -233,6 +235,7 @@ impl<'names> GlifParser<'names> {
                 Event::Empty(ref start) if start.name().as_ref() == b"point" => {
                     self.parse_point(start, outline_builder)?;
                 }
+                Event::Comment(_) => (),
                 Event::Eof => return Err(ErrorKind::UnexpectedEof.into()),
                 _other => return Err(ErrorKind::UnexpectedElement.into()),
             }
